@@ -251,4 +251,17 @@ def Dev.run (d : Dev) : List Bytes → Option Dev
     | some d' => d'.run ts
     | none => none
 
+/-- Host side of USBTMC 1.0 §3.3 as a plain function of the Bulk-IN transfers: the data of a transfer are the bytes after
+the 12-byte header, at most TransferSize of them; the message is complete at the first transfer that carries all of its
+TransferSize bytes and has EOM set; a transfer shorter than a header, an endpoint error or running out of transfers is
+an error (`none`). -/
+def hostSpec : List Ev → Bytes → Option Bytes
+  | [], _ => none
+  | .ioErr :: _, _ => none
+  | .data t :: rest, acc =>
+    match unpackResp t with
+    | none => none
+    | some (_, _, _, ts, a, d) =>
+      if d.length ≥ ts ∧ a.toNat % 2 = 1 then some (acc ++ d) else hostSpec rest (acc ++ d)
+
 end QmiModel.Usbtmc
